@@ -48,7 +48,9 @@ def category(o: dict[str, typing.Any]) -> str:
     if o["k"] == "connect":
         return "connect"
     if o["k"] == "recv":
-        return "other" if o["err"] == "ssl" else "read"
+        # whatever fails while the response is awaited fails after the request may have reached the server: a read error,
+        # also when it is the TLS layer that reports it
+        return "read"
     if o["k"] == "tls":
         return "other"
     return "status"
@@ -181,16 +183,21 @@ def run_case(rec: Recorder, pooltype: str, method: str, req_cfg: typing.Any, poo
         resets urllib3's 'connected to proxy' flag: the error is then labelled ProxyError and filed under 'other'"""
         return pooltype != "direct" and o["k"] == "recv" and o["err"] in ("reset", "eof")
 
+    def misfiled_tls(o: dict[str, typing.Any]) -> bool:
+        """a TLS-level failure while the response is awaited is turned into urllib3's SSLError before the read-error test
+        and lands in the 'other' category as well"""
+        return o["k"] == "recv" and o["err"] == "ssl"
+
     followed = {"connect": 0, "read": 0, "status": 0, "other": 0}
     alt = {"connect": 0, "read": 0, "status": 0, "other": 0}
     for i in range(n - 1):
         followed[category(attempts[i])] += 1
-        alt["other" if misfiled(attempts[i]) else category(attempts[i])] += 1
+        alt["other" if (misfiled(attempts[i]) or misfiled_tls(attempts[i])) else category(attempts[i])] += 1
     for cat in ("connect", "read", "status", "other"):
         b = eff[cat]
         if isinstance(b, int) and not isinstance(b, bool) and followed[cat] > b:
             holds_alt = all(not (isinstance(eff[c2], int) and not isinstance(eff[c2], bool)) or alt[c2] <= eff[c2] for c2 in alt)
-            rec.fail(case, "category-budget-exceeded", dict(obs, category=cat, budget=b, retried=followed[cat], explained_by_proxy_misfiled_reads=holds_alt and cat == "read"), f"{followed[cat]} retries after {cat} events with {cat}={b}")
+            rec.fail(case, "category-budget-exceeded", dict(obs, category=cat, budget=b, retried=followed[cat], explained_by_proxy_misfiled_reads=holds_alt and cat == "read" and any(misfiled(a) for a in attempts[:-1]), explained_by_tls_misfiled_reads=holds_alt and cat == "read" and any(misfiled_tls(a) for a in attempts[:-1])), f"{followed[cat]} retries after {cat} events with {cat}={b}")
             return
     # R4 non-idempotent rule
     rec.mon("non_idempotent_rule")
@@ -199,7 +206,7 @@ def run_case(rec: Recorder, pooltype: str, method: str, req_cfg: typing.Any, poo
             o = attempts[i]
             c = category(o)
             if c == "read" or (c == "status" and int(o.get("status", 200)) >= 400):
-                rec.fail(case, "non-idempotent-resent", dict(obs, after=c, after_detail=o.get("err") or o.get("status"), index=i, explained_by_proxy_misfiled_reads=misfiled(o)), f"{method} (not in allowed_methods) re-sent after a {c} event ({o.get('err') or o.get('status')}) on attempt {i+1}")
+                rec.fail(case, "non-idempotent-resent", dict(obs, after=c, after_detail=o.get("err") or o.get("status"), index=i, explained_by_proxy_misfiled_reads=misfiled(o), explained_by_tls_misfiled_reads=misfiled_tls(o)), f"{method} (not in allowed_methods) re-sent after a {c} event ({o.get('err') or o.get('status')}) on attempt {i+1}")
                 return
     # R10 a response is only followed by another attempt when it is force-listed or a 413/429/503 carrying Retry-After
     rec.mon("status_retry_cause")
@@ -255,7 +262,7 @@ def run_case(rec: Recorder, pooltype: str, method: str, req_cfg: typing.Any, poo
             if c == "connect":
                 want = (NewConnectionError, ConnectTimeoutError, ProxyError)
             elif c == "read":
-                want = (ReadTimeoutError, ProtocolError, ProxyError)
+                want = (ReadTimeoutError, ProtocolError, ProxyError, SSLError)
             elif c == "other":
                 want = (SSLError, ProxyError)
             else:
@@ -264,6 +271,78 @@ def run_case(rec: Recorder, pooltype: str, method: str, req_cfg: typing.Any, poo
                 rec.fail(case, "maxretry-reason-not-last-cause", dict(obs, reason=type(reason).__name__, last=c), f"MaxRetryError.reason is {type(reason).__name__}, last attempt was a {c} event")
     if rec.evaluations % 1499 == 0:
         rec.sample({"case": case, "attempt_categories": obs["cats"], "sleeps": sleeps, "exception": obs["exc"]})
+
+
+def run_redirect_budgets(ctx: Ctx, rec: Recorder) -> None:
+    """Outcome sequences that contain redirects, through the pool (which follows them itself) and through a PoolManager /
+    forwarding ProxyManager (which take the 3xx back from the pool and follow it themselves): what was spent on errors
+    before a redirect stays spent - the attempts on the wire never exceed 1 + total, nor 1 + any category budget."""
+    import itertools
+
+    import urllib3
+    from urllib3.exceptions import HTTPError
+    from urllib3.util import Retry
+
+    alpha = ["eof", "refused", "503", "302", "200"]
+    cfgs = [{"total": 1}, {"total": 2}, {"total": 3}, {"total": 6, "read": 1}, {"total": 6, "connect": 1}, {"total": 6, "redirect": 1}, {"total": 6, "status": 1}, {"total": 2, "redirect": 5}, {"total": 6, "read": 0, "redirect": 2}]
+    L = ctx.pick(4, 6)
+    stride = ctx.pick(3, 1)
+    idx = 0
+    for entry in ("pool", "manager", "proxy"):
+        for cfg in cfgs:
+            for n in range(2, L + 1):
+                for seq in itertools.product(alpha, repeat=n):
+                    idx += 1
+                    if "302" not in seq[:-1] or seq[0] == "200" or not ctx.mine(idx) or (idx // ctx.nshards) % stride:
+                        continue
+                    case = {"mode": "redirect-budgets", "entry": entry, "retries": cfg, "seq": list(seq)}
+                    rec.case(["redirect-budgets", entry, cfg, seq])
+                    net = netsim.Net(None)
+                    specs = [{"k": "resp", "status": 302, "headers": [["Location", "/next"]], "body": ""} if x == "302" else ({"k": "recv", "err": "eof"} if x == "eof" else outcome_spec(x, 0.0)) for x in seq]
+                    script = netsim.AttemptScript(specs)
+                    net.script = script
+                    exc: BaseException | None = None
+                    with net:
+                        r = Retry(status_forcelist=[503], backoff_factor=0, **cfg)
+                        try:
+                            if entry == "pool":
+                                cl: typing.Any = urllib3.HTTPConnectionPool("o.test", 80)
+                                cl.urlopen("GET", "/x", retries=r)
+                            elif entry == "manager":
+                                cl = urllib3.PoolManager()
+                                cl.urlopen("GET", "http://o.test/x", retries=r)
+                            else:
+                                cl = urllib3.ProxyManager("http://proxy.test:3128")
+                                cl.urlopen("GET", "http://o.test/x", retries=r)
+                        except HTTPError as e:
+                            exc = e
+                        except Exception as e:  # noqa: BLE001
+                            rec.fail(case, "non-urllib3-exception", {"msg": str(e)[:80], "entry": entry}, f"{type(e).__name__}: {e!s:.100}")
+                            continue
+                        log = [dict(l) for l in script.log]
+                    rec.mon("redirect_budget_case")
+                    cats = []
+                    for l in log:
+                        o = l["outcome"]
+                        if l.get("not_applicable"):
+                            cats.append("ok")
+                        elif o["k"] == "connect":
+                            cats.append("connect")
+                        elif o["k"] == "recv":
+                            cats.append("read")
+                        else:
+                            cats.append({302: "redirect", 503: "status"}.get(int(o["status"]), "ok"))
+                    followed = {c: cats[:-1].count(c) for c in ("connect", "read", "status", "redirect")}
+                    obs = {"entry": entry, "attempts": len(cats), "cats": cats, "exc": type(exc).__name__ if exc else None, "retries": cfg}
+                    if len(cats) > 1 + cfg["total"]:
+                        rec.fail(case, "total-budget-exceeded", dict(obs, total=cfg["total"], with_redirects=True), f"{entry}: {len(cats)} attempts ({cats}) with total={cfg['total']}")
+                        continue
+                    for c, k in followed.items():
+                        if entry == "proxy" and c == "read":
+                            continue  # behind a proxy read errors are filed under 'other' (recorded finding, judged by run_case)
+                        if c in cfg and k > cfg[c]:
+                            rec.fail(case, "category-budget-exceeded", dict(obs, category=c, budget=cfg[c], retried=k, with_redirects=True), f"{entry}: {k} attempts followed a {c} event with {c}={cfg[c]} ({cats})")
+                            break
 
 
 INTS = [None, 0, 1, 2]
@@ -333,6 +412,7 @@ def run_shard(ctx: Ctx, rec: Recorder) -> None:
                             continue
                         rec.case(["warm", pooltype, w, pol, seq, method])
                         run_case(rec, pooltype, method, pol, None, list(seq), warmup=[w])
+    run_redirect_budgets(ctx, rec)
     # (ii) random configurations, placements, pool types, longer sequences
     n_rand = ctx.pick(9000, 250000)
     for i in range(n_rand):
